@@ -211,6 +211,22 @@ impl Metrics {
         tracing::field::debug(Rc::as_ptr(&self.0) as *const ())
     }
 
+    /// Raw counters of the current cycle (verification hook, read-only).
+    #[cfg(gc_arena_verif)]
+    pub fn verif_counters(&self) -> crate::verif::MetricsCounters {
+        crate::verif::MetricsCounters {
+            total_gcs: self.0.total_gcs.get(),
+            wakeup_amount: self.0.wakeup_amount.get(),
+            artificial_debt: self.0.artificial_debt.get(),
+            allocated_gcs: self.0.allocated_gcs.get(),
+            dropped_gcs: self.0.dropped_gcs.get(),
+            freed_gcs: self.0.freed_gcs.get(),
+            marked_gcs: self.0.marked_gcs.get(),
+            traced_gcs: self.0.traced_gcs.get(),
+            remembered_gcs: self.0.remembered_gcs.get(),
+        }
+    }
+
     /// Sets the pacing parameters used by the collection algorithm.
     ///
     /// The factors that affect the gc sleep time will not take effect until the start of the next
